@@ -17,12 +17,9 @@ from typing import Any
 
 from . import core
 
-import os
-
-_HAVE = os.path.exists(os.path.join(core.ROOT, "lean", "ESV", "Props", "DecompFront.lean"))
-MODULES = ["ESV.Props.DecompFront"] if _HAVE else ["ESV.Decomp.Sem"]
-_ALL = ["ESV.DecompFront.resolve_total", "ESV.DecompFront.resolve_preserves", "ESV.DecompFront.baseGraph_preserves"]
-THEOREMS = [t for t in _ALL if _HAVE and ("theorem " + t.split(".")[-1]) in open(os.path.join(core.ROOT, "lean", "ESV", "Props", "DecompFront.lean")).read()] if _HAVE else []
+MODULES = ["ESV.Props.DecompFront", "ESV.Props.DecompOpt"]
+THEOREMS = ["ESV.DecompFront.resolve_total", "ESV.DecompFront.resolve_preserves", "ESV.DecompFront.baseGraph_preserves",
+            "ESV.DecompFront.resolve_names", "ESV.DecompFront.baseGraph_ok", "ESV.DecompFront.edge_reading_agrees"]
 
 
 def strip_ops(rs: dict) -> list:
